@@ -104,6 +104,10 @@ THEOREMS = {
         "Shroud.Interop.struct_pairs_ok",
         "Shroud.Interop.helper_ifaces_ok",
         "Shroud.Interop.type_defines_agree",
+        "Shroud.Interop.bind_names_defined_all_envs",
+        "Shroud.Interop.probe_bind_names_defined",
+        "Shroud.Interop.probe_bind_names_defined_all_envs",
+        "Shroud.Interop.hardcoded_name_differs",
         "Shroud.Interop.tmplOK_interop",
         "Shroud.Interop.decl_rows_ok",
         "Shroud.Interop.decl_row_gives_declOK",
@@ -1320,6 +1324,25 @@ def gen_libraries(r, n):
         base.options["wrap_c"] = True
         ex = extra_decls(r, language, i)
         base.decls = list(base.decls) + ex[: r.randrange(max(7, len(ex) - 5), len(ex) + 1)]
+        # user-overridden name fields: every helper / wrapper name on the Fortran side must follow the C side
+        # (half of the libraries; the declarations below pull in the capsule destructor, copy_string, copy_array)
+        if i % 2 == 0:
+            ov = {"C_prefix": "Zq%d_" % i, "C_memory_dtor_function": "lib%d_release_memory" % i,
+                  "C_array_type": "Lib%dArr" % i, "F_array_type": "lib%d_farr" % i,
+                  "C_capsule_data_type": "Lib%dCap" % i, "F_capsule_data_type": "lib%d_fcap" % i, "F_capsule_type": "lib%d_fcapsule" % i,
+                  "C_bufferify_suffix": "_bfy", "C_cfi_suffix": "_cfy", "F_C_prefix": "cq_", "C_this": "me", "F_this": "this_obj",
+                  "F_capsule_final_function": "lib%d_final" % i, "F_capsule_delete_function": "lib%d_delete" % i,
+                  "C_string_result_as_arg": "sres", "F_result": "fres", "F_result_capsule": "fcres"}
+            keys = sorted(ov)
+            r.shuffle(keys)
+            base.fmt = dict(base.fmt or {})
+            for k in keys[: r.randrange(3, len(keys) + 1)]:
+                base.fmt[k] = ov[k]
+            base.fmt.setdefault("C_memory_dtor_function", ov["C_memory_dtor_function"])
+        base.decls.append({"decl": "int *c04own%d(int *len +intent(out)+hidden) +deref(pointer)+dimension(len)+owner(caller)" % i})
+        if language != "c":
+            base.decls.append({"decl": "const std::string & c04nm%d() +deref(allocatable)" % i})
+            base.decls.append({"decl": "void c04fill%d(std::vector<int> &v +intent(out))" % i})
         libs.append(("gen%d-%s%s" % (i, "c" if language == "c" else "cxx", "-cfi" if opts.get("F_CFI") else ""), base))
     return libs
 
@@ -1418,6 +1441,7 @@ def run(ctx):
         info = extract_interop.regenerate()
         ctx.note("translator", info)
         disagreements = info.pop("disagreements", [])
+        info.pop("probe_yaml", None)
         if disagreements:
             ctx.note("lookup_disagreements", disagreements[:5])
     except (extract_interop.TranslatorError, ip.ParseError) as e:
@@ -1484,6 +1508,12 @@ def run(ctx):
             text = lib.yaml()
             y = shroudrun.write_yaml(work, tag + ".yaml", text)
             process(ctx, tag, y, [], None, False, {"yaml": text}, stats, drv_lines, drv_meta, thorough)
+        # ---- the translator's probe library (all name fields overridden, every helper pair pulled in)
+        text = extract_interop.probe_yaml()
+        y = shroudrun.write_yaml(work, "probe.yaml", text)
+        for cfi in ("false", "true"):
+            process(ctx, "probe-names-cfi-%s" % cfi, y, ["F_CFI=%s" % cfi], None, False,
+                    {"yaml": text, "options": ["F_CFI=%s" % cfi]}, stats, drv_lines, drv_meta, thorough)
         # ---- inputs aimed at lookup-path disagreements found by the translator
         for tag, lib in targeted_libraries(disagreements):
             text = lib.yaml()
